@@ -218,6 +218,11 @@ class Parser:
             return ("str", v), 0
         if k == "punct":
             if v == "(":
+                nx = self.peek()
+                if nx[0] == "punct" and nx[1] in ("|", ",") and self.i + 1 < len(self.t) and self.t[self.i + 1][:2] == ("punct", ")"):
+                    self.next()
+                    self.next()
+                    return ("atom", nx[1]), 0   # (|) and (,) denote the atoms
                 t = self.parse(1200)
                 self.expect("punct", ")")
                 return t, 0
